@@ -46,13 +46,12 @@ vlib.standard_check({
                      "statement of ⊑ / compat in Nodes/Bits.lean", "harness/c03.cpp netlist dump + Driver/Nodes*.lean line protocol (correspondence on generated cases, not proved)"],
     "level_text": "Lean theorems: every modelled core node (Logic, Arithmetic, Compare, Shift, Rewire, Multiplexer, PriorityConditional, Constant) is monotone "
                   "in the refinement order, lifted by induction to every combinational netlist; corollaries: a bit defined in the abstract run keeps its value "
-                  "in every concretisation (defined_bit_persists / defined_never_wrong), constant folding of fully defined abstract results is sound. Model tied "
+                  "in every concretisation (defined_bit_persists / defined_never_wrong), constant folding of fully defined abstract results is sound; the asynchronous memory read (EXACT and default undefined-address "
+                  "behaviour) is monotone in address, contents and enable for all sizes and widths; clocked netlists never contradict their concretisations. Model tied "
                   "to the code by node-level differential execution; the property is additionally checked directly on the implementation (abstract vs "
-                  "concretised runs of the same compiled program, combinational and with registers over 6 cycles).",
+                  "concretised runs of the same compiled program, combinational, with registers over 6 cycles, and memories with all address concretisations).",
     "assumptions": ["theorems cover combinational netlists and asynchronous memory reads; registers are covered by the implementation-level check of stream seq "
                     "only (no Lean model of Node_Register here, see C04); forwarding of pending writes into a read of the same cycle (Node_MemPort.cpp:244-279), "
                     "memory write ports and tristate pins are not covered",
-                    "Node_MemPort asserts (InternalError) on an EXACT read whose partially undefined address has its smallest candidate beyond the memory; modelled as a "
-                    "guard (memReadThrows), generated rarely, throw <-> guard is checked",
                     "nodes outside the model (External, vendor primitives, SignalGenerator callbacks)"],
 })
